@@ -303,6 +303,26 @@ def random_cases(rng, n):
     return ["".join(rng.choice(alpha) for _ in range(rng.randint(0, 24))) for _ in range(n)]
 
 
+def token_cases(rng, n):
+    """token-directed strings: text pieces (with controls / non-ASCII), supported and UNSUPPORTED SGR (the latter sends
+    from_str down its ValueError -> remove_ansi fallback), truncated CSI introducers/parameter runs cut off by ordinary
+    characters, 8-bit CSI, two-byte escapes, cursor moves"""
+    texts = ["a", "next line", " done", "12:01", "caf", "é ok", "\n", "\t", "x\ny", "☃", "~", "m", "]", "é"]
+    sup = ["\x1b[31m", "\x1b[0m", "\x1b[1;44m", "\x1b[m", "\x1b[39m", "\x1b[7m"]
+    unsup = ["\x1b[90m", "\x1b[38m", "\x1b[38;5;196m", "\x1b[11m", "\x1b[1;m", "\x1b[99;1m"]
+    trunc = ["\x1b[", "\x1b[2", "\x1b[2;", "\x1b[2;3", "\x9b", "\x9b3", "\x9b3;", "\x1b[ ", "\x1b"]
+    other = ["\x1b[2A", "\x1b[H", "\x1b[2J", "\x1b[K", "\x1bM", "\x1bE", "\x9b31m", "\x1b[?25l", "\x1b[;m"]
+    out = []
+    for _ in range(n):
+        parts = []
+        for _ in range(rng.randint(1, 8)):
+            r = rng.random()
+            pool = texts if r < 0.4 else sup if r < 0.55 else unsup if r < 0.7 else trunc if r < 0.88 else other
+            parts.append(rng.choice(pool))
+        out.append("".join(parts))
+    return out
+
+
 def footprint(case, what):
     return None
 
@@ -315,6 +335,7 @@ def small_cases(ctx):
         cases += list(strings_of(ALPHA_U, "", length))
     cases += numeric_cases(ctx.rng, 4000 if ctx.thorough else 1000)
     cases += random_cases(ctx.rng, 20000 if ctx.thorough else 3000)
+    cases += token_cases(ctx.rng, 40000 if ctx.thorough else 6000)
     return cases
 
 
@@ -344,6 +365,13 @@ def check(ctx):
 
 def search(ctx):
     """tie or proof broke: oracle at thorough bounds"""
+    for s in token_cases(ctx.rng, 200000):
+        w = oracle(s)
+        ctx.evaluations += 1
+        if w:
+            ctx.violation(w, s, footprint(s, w))
+            if len(ctx.violations) > 20:
+                return
     if ctx.thorough:
         return
     ctx.thorough = True
